@@ -53,29 +53,34 @@ def _kind_of_app(e):
     return None
 
 
+_it_cache = {}
+
+
 def index_terms(exprs, limit=60):
-    """(term, kind) for Int-sorted arguments of select / seq.nth applications in quantifier-free parts."""
     found = {}
-
-    def walk(e, seen):
-        if e.get_id() in seen:
-            return
-        seen.add(e.get_id())
-        if z3.is_quantifier(e):
-            return
-        if z3.is_app(e):
-            kd = _kind_of_app(e)
-            if kd is not None:
-                ix = e.arg(1)
-                if ix.sort() == z3.IntSort() and not _has_var(ix):
-                    found.setdefault((ix.get_id(), kd), (ix, kd))
-            for c in e.children():
-                walk(c, seen)
-
-    seen = set()
     for e in exprs:
-        walk(e, seen)
+        i = e.get_id()
+        r = _it_cache.get(i)
+        if r is None:
+            r = (_index_terms1(e), e)
+            _it_cache[i] = r
+        for t, kd in r[0]:
+            found.setdefault((t.get_id(), kd), (t, kd))
     return list(found.values())[:limit]
+
+
+def _index_terms1(e0):
+    """(term, kind) for Int-sorted arguments of select / seq.nth applications in quantifier-free parts."""
+    from .smt import raw_find
+    found = {}
+    for e in raw_find(e0, ("select", "seq.nth", "seq.nth_i", "seq.nth_u", "seq.at", "nth.int"), skip_quant=True):
+        kd = _kind_of_app(e)
+        if kd is None or e.num_args() < 2:
+            continue
+        ix = e.arg(1)
+        if ix.sort() == z3.IntSort() and not _has_var(ix):
+            found.setdefault((ix.get_id(), kd), (ix, kd))
+    return list(found.values())
 
 
 _hq2 = {}
@@ -109,7 +114,19 @@ def _has_var(e):
     return v
 
 
+_vk_cache = {}
+
+
 def var_kinds(q):
+    i = q.get_id()
+    r = _vk_cache.get(i)
+    if r is None:
+        r = (_var_kinds1(q), q)
+        _vk_cache[i] = r
+    return r[0]
+
+
+def _var_kinds1(q):
     """How each bound variable is used directly as an index: 'arr', 'seq' or 'any'."""
     n = q.num_vars()
     kinds = [set() for _ in range(n)]
@@ -314,22 +331,9 @@ def nth_axioms(formulas, rounds=5, limit=600):
     work = list(formulas)
     for _ in range(rounds):
         apps = {}
-
-        def walk(e, seen):
-            if e.get_id() in seen:
-                return
-            seen.add(e.get_id())
-            if z3.is_quantifier(e):
-                return
-            if z3.is_app(e):
-                if e.decl().name() == "nth.int" and not _has_var(e):
-                    apps[e.get_id()] = e
-                for c in e.children():
-                    walk(c, seen)
-
-        seen = set()
         for f in work:
-            walk(f, seen)
+            for a in _nth_apps(f):
+                apps[a.get_id()] = a
         new = []
         for a in apps.values():
             S, J = a.arg(0), a.arg(1)
@@ -350,6 +354,24 @@ def nth_axioms(formulas, rounds=5, limit=600):
         out += new
         work = new
     return out
+
+
+_na_cache = {}
+
+
+def _nth_apps(f):
+    i = f.get_id()
+    r = _na_cache.get(i)
+    if r is not None:
+        return r[0]
+    apps = {}
+    from .smt import raw_find
+    for e in raw_find(f, ("nth.int",), skip_quant=True):
+        if e.num_args() == 2 and not _has_var(e):
+            apps[e.get_id()] = e
+    res = list(apps.values())
+    _na_cache[i] = (res, f)
+    return res
 
 
 def _structured(S):
